@@ -207,6 +207,10 @@ def r17_2(ctx):
             negs = [expr_str(f[1]) for f in kt if isinstance(f, tuple)]
             has_alias = any("type_aliases.get(" in n for n in negs)
             has_iface = any("interfaces.get(" in n for n in negs)
+            others = [n_ for n_ in negs if "type_aliases.get(" not in n_ and "interfaces.get(" not in n_]
+            pos = [expr_str(f) for f in kt if not isinstance(f, tuple) and f.get("k") != "LetExpr"]
+            r.ob("the built-in name table is reached whenever both lookups fail (no further condition in front of it)", not others and not pos, C.mloc(rt, m),
+                 "only the two lookups precede it" if not others and not pos else "also conditioned on %s: some references never reach the table and fall to the default" % ((others + pos)[0][:80]))
             r.ob("the built-in name table is consulted only after both lookups failed", has_alias and has_iface, C.mloc(rt, m),
                  "else-branch of `type_aliases.get` and `interfaces.get`" if has_alias and has_iface else "reached without: %s" % ", ".join(x for x, ok in (("alias lookup", has_alias), ("interface lookup", has_iface)) if not ok))
     return r
@@ -290,7 +294,7 @@ def r17_4(ctx):
 
 def rules(ctx):
     from . import c16
-    return [__import__('vjsx.rules.c10', fromlist=['x']).field_ratchet('inferred runtime types must not depend on what was resolved before'), r17_1, r17_2, r17_3, r17_4, r17_5, c16.r16_2]
+    return [__import__('vjsx.rules.c10', fromlist=['x']).field_ratchet('inferred runtime types must not depend on what was resolved before'), c16.r16_9, r17_1, r17_2, r17_3, r17_4, r17_5, c16.r16_2]
 
 
 EXPLANATION = (
